@@ -1,3 +1,410 @@
+//! C10 — one-shot encode()/decode() equal the streaming API, errors included.
+//! Exhaustive enumeration of argument tuples (list shapes over a small alphabet of indexes and
+//! shard classes); oracle = the equivalent streaming sequence on ReedSolomonEncoder/Decoder plus
+//! the set of truthful errors computed from the input alone.
+use std::collections::{BTreeMap, BTreeSet};
+
+use crate::core::*;
+use crate::json::J;
+use crate::kv::*;
 use crate::report::*;
-pub fn run(_ctx: &Ctx, rep: &mut Report) { rep.machinery_errors.push("not implemented".into()); }
-pub fn replay(_ctx: &Ctx, _case: &str) -> Result<(), String> { Err("not implemented".into()) }
+use reed_solomon_simd::{Error, ReedSolomonDecoder, ReedSolomonEncoder};
+
+type V = (String, String);
+
+/// shard classes: e = empty, a = 2 bytes, o = 3 bytes (odd), b = 64 bytes, c = 66 bytes
+const CLASSES: [(char, usize); 5] = [('e', 0), ('a', 2), ('o', 3), ('b', 64), ('c', 66)];
+fn class_len(c: char) -> usize {
+    CLASSES.iter().find(|(n, _)| *n == c).unwrap().1
+}
+
+struct Data {
+    /// per size: (originals, recovery) consistent sets for (k, r)
+    sets: BTreeMap<usize, (Vec<Vec<u8>>, Vec<Vec<u8>>)>,
+}
+impl Data {
+    fn new(refm: &RefModel, k: usize, r: usize, seed: u64) -> Data {
+        let mut sets = BTreeMap::new();
+        if spec_supports(Kind::Rs, k, r) && k <= 8 && r <= 8 {
+            for b in [2usize, 64, 66] {
+                let o = data_dense(k, b, seed ^ 0xC10);
+                let rec = refm.encode(spec_high_selected(k, r), k, r, &o);
+                sets.insert(b, (o, rec));
+            }
+        }
+        Data { sets }
+    }
+    fn orig(&self, idx: usize, len: usize) -> Vec<u8> {
+        match self.sets.get(&len) {
+            Some((o, _)) if idx < o.len() => o[idx].clone(),
+            _ => vec![0x3Cu8; len],
+        }
+    }
+    fn rec(&self, idx: usize, len: usize) -> Vec<u8> {
+        match self.sets.get(&len) {
+            Some((_, r)) if idx < r.len() => r[idx].clone(),
+            _ => vec![0xC3u8; len],
+        }
+    }
+}
+
+fn show<T: std::fmt::Debug>(r: &Result<T, Error>) -> String {
+    match r {
+        Ok(v) => {
+            let s = format!("{v:?}");
+            format!("Ok({})", if s.len() > 160 { format!("{}..", &s[..160]) } else { s })
+        }
+        Err(e) => format!("Err({e:?})"),
+    }
+}
+
+// ---------------------------------------------------------------- encode
+
+fn check_encode(data: &Data, k: usize, r: usize, lens: &[usize]) -> Result<(), V> {
+    let originals: Vec<Vec<u8>> = lens.iter().enumerate().map(|(i, l)| data.orig(i, *l)).collect();
+    let one = guard(|| reed_solomon_simd::encode(k, r, &originals)).map_err(|p| ("no panic".to_string(), format!("PANIC: {p}")))?;
+    // streaming equivalent
+    let stream = guard(|| -> Result<Vec<Vec<u8>>, Error> {
+        if !ReedSolomonEncoder::supports(k, r) {
+            return Err(Error::UnsupportedShardCount { original_count: k, recovery_count: r });
+        }
+        let Some(first) = originals.first() else { return Err(Error::TooFewOriginalShards { original_count: k, original_received_count: 0 }) };
+        let mut e = ReedSolomonEncoder::new(k, r, first.len())?;
+        for o in &originals {
+            e.add_original_shard(o)?;
+        }
+        let res = e.encode()?;
+        Ok(res.recovery_iter().map(|s| s.to_vec()).collect())
+    })
+    .map_err(|p| ("streaming oracle does not panic".to_string(), format!("PANIC: {p}")))?;
+    // truthful errors from the input alone
+    let mut truthful: Vec<Error> = Vec::new();
+    if !spec_supports(Kind::Rs, k, r) {
+        truthful.push(Error::UnsupportedShardCount { original_count: k, recovery_count: r });
+    }
+    let n = lens.len();
+    if n < k {
+        truthful.push(Error::TooFewOriginalShards { original_count: k, original_received_count: n });
+    }
+    if n > k {
+        truthful.push(Error::TooManyOriginalShards { original_count: k });
+    }
+    if let Some(&f) = lens.first() {
+        if f == 0 || f % 2 != 0 {
+            truthful.push(Error::InvalidShardSize { shard_bytes: f });
+        }
+        for &l in lens {
+            if l != f {
+                truthful.push(Error::DifferentShardSize { shard_bytes: f, got: l });
+            }
+        }
+    }
+    let desc = format!("encode({k},{r},lens={lens:?})");
+    match (&stream, &one) {
+        (Ok(a), Ok(b)) => {
+            if a != b {
+                return Err((format!("{desc} == streaming result {}", show(&stream)), show(&one)));
+            }
+            if !truthful.is_empty() {
+                return Err((format!("{desc} -> Err (input violates {truthful:?})"), show(&one)));
+            }
+            Ok(())
+        }
+        (_, Ok(_)) => Err((format!("{desc} -> {} like the streaming sequence", show(&stream)), show(&one))),
+        (_, Err(e)) => {
+            if truthful.contains(e) {
+                Ok(())
+            } else if truthful.is_empty() {
+                Err((format!("{desc} -> Ok (no precondition violated)"), show(&one)))
+            } else {
+                Err((format!("{desc} -> Err naming a violated precondition, one of {truthful:?}"), show(&one)))
+            }
+        }
+    }
+}
+
+// ---------------------------------------------------------------- decode
+
+fn check_decode(data: &Data, k: usize, r: usize, ol: &[(usize, usize)], rl: &[(usize, usize)]) -> Result<(), V> {
+    let originals: Vec<(usize, Vec<u8>)> = ol.iter().map(|(i, l)| (*i, data.orig(*i, *l))).collect();
+    let recovery: Vec<(usize, Vec<u8>)> = rl.iter().map(|(i, l)| (*i, data.rec(*i, *l))).collect();
+    let one = guard(|| reed_solomon_simd::decode(k, r, originals.iter().map(|(i, s)| (*i, s.as_slice())), recovery.iter().map(|(i, s)| (*i, s.as_slice())))).map_err(|p| ("no panic".to_string(), format!("PANIC: {p}")))?;
+    let one: Result<BTreeMap<usize, Vec<u8>>, Error> = one.map(|m| m.into_iter().collect());
+    let inferred = rl.first().map(|x| x.1).or(ol.first().map(|x| x.1));
+    let stream = guard(|| -> Result<BTreeMap<usize, Vec<u8>>, Error> {
+        if !ReedSolomonDecoder::supports(k, r) {
+            return Err(Error::UnsupportedShardCount { original_count: k, recovery_count: r });
+        }
+        let Some(bytes) = inferred else { return Err(Error::NotEnoughShards { original_count: k, original_received_count: 0, recovery_received_count: 0 }) };
+        let mut d = ReedSolomonDecoder::new(k, r, bytes)?;
+        for (i, s) in &originals {
+            d.add_original_shard(*i, s)?;
+        }
+        for (i, s) in &recovery {
+            d.add_recovery_shard(*i, s)?;
+        }
+        let res = d.decode()?;
+        Ok(res.restored_original_iter().map(|(i, s)| (i, s.to_vec())).collect())
+    })
+    .map_err(|p| ("streaming oracle does not panic".to_string(), format!("PANIC: {p}")))?;
+    // truthful errors
+    let mut truthful: Vec<Error> = Vec::new();
+    if !spec_supports(Kind::Rs, k, r) {
+        truthful.push(Error::UnsupportedShardCount { original_count: k, recovery_count: r });
+    }
+    if let Some(f) = inferred {
+        if f == 0 || f % 2 != 0 {
+            truthful.push(Error::InvalidShardSize { shard_bytes: f });
+        }
+        for (_, l) in ol.iter().chain(rl.iter()) {
+            if *l != f {
+                truthful.push(Error::DifferentShardSize { shard_bytes: f, got: *l });
+            }
+        }
+    }
+    let mut seen = BTreeSet::new();
+    for (i, _) in ol {
+        if *i >= k {
+            truthful.push(Error::InvalidOriginalShardIndex { original_count: k, index: *i });
+        } else if !seen.insert(*i) {
+            truthful.push(Error::DuplicateOriginalShardIndex { index: *i });
+        }
+    }
+    let distinct_o = seen.len();
+    let mut seen = BTreeSet::new();
+    for (j, _) in rl {
+        if *j >= r {
+            truthful.push(Error::InvalidRecoveryShardIndex { recovery_count: r, index: *j });
+        } else if !seen.insert(*j) {
+            truthful.push(Error::DuplicateRecoveryShardIndex { index: *j });
+        }
+    }
+    let distinct_r = seen.len();
+    if ol.len() + rl.len() < k {
+        truthful.push(Error::NotEnoughShards { original_count: k, original_received_count: ol.len(), recovery_received_count: rl.len() });
+    }
+    if distinct_o + distinct_r < k {
+        truthful.push(Error::NotEnoughShards { original_count: k, original_received_count: distinct_o, recovery_received_count: distinct_r });
+    }
+    let desc = format!("decode({k},{r},orig={:?},rec={:?})", ol.iter().map(|(i, l)| format!("{}:{l}B", fmt_usize(*i))).collect::<Vec<_>>(), rl.iter().map(|(i, l)| format!("{}:{l}B", fmt_usize(*i))).collect::<Vec<_>>());
+    match (&stream, &one) {
+        (Ok(a), Ok(b)) => {
+            if a != b {
+                return Err((format!("{desc} == streaming result {}", show(&stream)), show(&one)));
+            }
+            if !truthful.is_empty() {
+                return Err((format!("{desc} -> Err (input violates {truthful:?})"), show(&one)));
+            }
+            // tie to the truth: restored == missing originals
+            if let Some((o, _)) = inferred.and_then(|b| data.sets.get(&b)) {
+                let given: BTreeSet<usize> = ol.iter().map(|x| x.0).collect();
+                let want: BTreeMap<usize, Vec<u8>> = (0..k).filter(|i| !given.contains(i)).map(|i| (i, o[i].clone())).collect();
+                if &want != b {
+                    return Err((format!("{desc} restores exactly the missing originals"), show(&one)));
+                }
+            }
+            Ok(())
+        }
+        (_, Ok(_)) => {
+            if truthful.is_empty() {
+                Err((format!("{desc} -> {} like the streaming sequence", show(&stream)), show(&one)))
+            } else {
+                Err((format!("{desc} -> Err (input violates {truthful:?}); streaming gives {}", show(&stream)), show(&one)))
+            }
+        }
+        (_, Err(e)) => {
+            if truthful.contains(e) {
+                Ok(())
+            } else if truthful.is_empty() {
+                Err((format!("{desc} -> Ok (no precondition violated)"), show(&one)))
+            } else {
+                Err((format!("{desc} -> Err naming a violated precondition, one of {truthful:?}"), show(&one)))
+            }
+        }
+    }
+}
+
+// ---------------------------------------------------------------- descriptors
+
+fn fmt_items(v: &[(usize, usize)]) -> String {
+    if v.is_empty() {
+        return "-".into();
+    }
+    v.iter().map(|(i, l)| format!("{}:{l}", fmt_usize(*i))).collect::<Vec<_>>().join(",")
+}
+fn parse_items(s: &str) -> Vec<(usize, usize)> {
+    if s == "-" {
+        return vec![];
+    }
+    s.split(',').map(|p| {
+        let (a, b) = p.split_once(':').unwrap();
+        (parse_usize(a), b.parse().unwrap())
+    }).collect()
+}
+
+pub fn replay(_ctx: &Ctx, case: &str) -> Result<(), String> {
+    let kv = Kv::parse(case)?;
+    let refm = RefModel::new();
+    let (k, r) = (kv.usize("k"), kv.usize("r"));
+    let data = Data::new(&refm, k, r, kv.u64("seed"));
+    let res = if kv.str("fn") == "encode" {
+        check_encode(&data, k, r, &kv.list("lens"))
+    } else {
+        check_decode(&data, k, r, &parse_items(kv.str("orig")), &parse_items(kv.str("rec")))
+    };
+    res.map_err(|(e, o)| format!("expected {e}; observed {o}"))
+}
+
+fn sequences<T: Clone>(alpha: &[T], max_len: usize) -> Vec<Vec<T>> {
+    let mut out = vec![vec![]];
+    let mut level: Vec<Vec<T>> = vec![vec![]];
+    for _ in 0..max_len {
+        let mut next = Vec::new();
+        for s in &level {
+            for a in alpha {
+                let mut t = s.clone();
+                t.push(a.clone());
+                next.push(t);
+            }
+        }
+        out.extend(next.iter().cloned());
+        level = next;
+    }
+    out
+}
+
+pub fn run(ctx: &Ctx, rep: &mut Report) {
+    let refm = RefModel::new();
+    let seed = ctx.seed;
+    rep.rule = "case = one argument tuple of encode()/decode(): counts from {(1,1),(2,1),(1,2),(2,2),(3,2),(0,1),(1,0),(65536,1)}, original/recovery lists = every sequence up to the length bound over (index alphabet) x (shard classes empty/2B/3B/64B/66B); oracle = equivalent ReedSolomonEncoder/Decoder sequence (must agree exactly on success) and the set of errors that truthfully name a violated precondition of the input; non-trivial = tuples that violate at least one precondition or that decode/encode real data; distinct by tuple".into();
+    rep.assume("valid shards carry consistent data (originals and their reference recovery), so successful decodes are also compared with the true originals");
+    let cfgs: Vec<(usize, usize)> = vec![(1, 1), (2, 1), (1, 2), (2, 2), (3, 2), (0, 1), (1, 0), (65536, 1)];
+    let lens_alpha: Vec<usize> = CLASSES.iter().map(|c| c.1).collect();
+    // per configuration: encode lists, decode original lists, decode recovery lists, valid sets
+    struct Space {
+        k: usize,
+        r: usize,
+        enc: Vec<Vec<usize>>,
+        ol: Vec<Vec<(usize, usize)>>,
+        rl: Vec<Vec<(usize, usize)>>,
+        valid: Vec<(Vec<(usize, usize)>, Vec<(usize, usize)>)>,
+    }
+    let mut spaces: Vec<Space> = Vec::new();
+    for &(k, r) in &cfgs {
+        let kk = k.min(3);
+        let enc = sequences(&lens_alpha, kk + 1);
+        let mut idx: Vec<usize> = vec![0, 1, k.saturating_sub(1), k, usize::MAX];
+        idx.sort();
+        idx.dedup();
+        let mut ridx: Vec<usize> = vec![0, 1, r.saturating_sub(1), r, usize::MAX];
+        ridx.sort();
+        ridx.dedup();
+        let classes: Vec<usize> = vec![0, 2, 3, 64];
+        let mut oa: Vec<(usize, usize)> = Vec::new();
+        for &i in &idx {
+            for &c in &classes {
+                oa.push((i, c));
+            }
+        }
+        let mut ra: Vec<(usize, usize)> = Vec::new();
+        for &i in &ridx {
+            for &c in &classes {
+                ra.push((i, c));
+            }
+        }
+        let (omax, rmax) = if ctx.thorough() { ((kk + 1).min(3), 2) } else { (2.min(kk + 1), 1) };
+        let ol = sequences(&oa, omax);
+        let rl = sequences(&ra, rmax);
+        let mut valid = Vec::new();
+        if spec_supports(Kind::Rs, k, r) && k <= 3 {
+            for mask in crate::rt::subsets_at_least_k(k, r) {
+                let (og, rg) = crate::rt::split_mask(k, r, mask);
+                for b in [2usize, 64, 66] {
+                    valid.push((og.iter().map(|i| (*i, b)).collect(), rg.iter().map(|i| (*i, b)).collect()));
+                }
+            }
+        }
+        spaces.push(Space { k, r, enc, ol, rl, valid });
+    }
+    rep.bound("list_lengths", J::s(if ctx.thorough() { "encode: 0..=min(k,3)+1 originals; decode: originals 0..=3, recovery 0..=2; plus every valid received-set" } else { "encode: 0..=min(k,3)+1 originals; decode: originals 0..=2, recovery 0..=1; plus every valid received-set" }));
+    rep.bound("cfgs", J::s(format!("{cfgs:?}")));
+    let datas: BTreeMap<(usize, usize), Data> = cfgs.iter().map(|&(k, r)| ((k, r), Data::new(&refm, k, r, seed))).collect();
+    // flat index space
+    let mut offs = vec![0usize];
+    for sp in &spaces {
+        offs.push(offs.last().unwrap() + sp.enc.len() + sp.ol.len() * sp.rl.len() + sp.valid.len());
+    }
+    let total = *offs.last().unwrap();
+    let case_of = |idx: usize| -> Kv {
+        let si = offs.partition_point(|o| *o <= idx) - 1;
+        let sp = &spaces[si];
+        let mut j = idx - offs[si];
+        let base = Kv::new().with("k", sp.k).with("r", sp.r).with("seed", seed);
+        if j < sp.enc.len() {
+            return base.with("fn", "encode").with("lens", fmt_list(&sp.enc[j]));
+        }
+        j -= sp.enc.len();
+        if j < sp.ol.len() * sp.rl.len() {
+            return base.with("fn", "decode").with("orig", fmt_items(&sp.ol[j / sp.rl.len()])).with("rec", fmt_items(&sp.rl[j % sp.rl.len()]));
+        }
+        j -= sp.ol.len() * sp.rl.len();
+        base.with("fn", "decode").with("orig", fmt_items(&sp.valid[j].0)).with("rec", fmt_items(&sp.valid[j].1))
+    };
+    let results: Vec<(bool, Option<Violation>)> = par_for(total, 1024, |idx| {
+        let si = offs.partition_point(|o| *o <= idx) - 1;
+        let sp = &spaces[si];
+        let data = &datas[&(sp.k, sp.r)];
+        let mut j = idx - offs[si];
+        let mut is_enc = false;
+        let res = guard(|| {
+            if j < sp.enc.len() {
+                is_enc = true;
+                return check_encode(data, sp.k, sp.r, &sp.enc[j]);
+            }
+            j -= sp.enc.len();
+            if j < sp.ol.len() * sp.rl.len() {
+                return check_decode(data, sp.k, sp.r, &sp.ol[j / sp.rl.len()], &sp.rl[j % sp.rl.len()]);
+            }
+            j -= sp.ol.len() * sp.rl.len();
+            check_decode(data, sp.k, sp.r, &sp.valid[j].0, &sp.valid[j].1)
+        });
+        let res = match res {
+            Ok(r) => r,
+            Err(p) => Err(("no panic".into(), format!("PANIC: {p}"))),
+        };
+        match res {
+            Ok(()) => (is_enc, None),
+            Err((exp, obs)) => {
+                let kv = case_of(idx);
+                (is_enc, Some(Violation {
+                    key: format!("{}-k{}r{}-{}-{}", kv.str("fn"), kv.str("k"), kv.str("r"), kv.opt("lens").or(kv.opt("orig")).unwrap_or(""), kv.opt("rec").unwrap_or("")),
+                    case: kv.dump(),
+                    expected: exp,
+                    observed: obs,
+                }))
+            }
+        }
+    });
+    let mut n_enc = 0u64;
+    let mut n_dec = 0u64;
+    for (is_enc, v) in results {
+        if is_enc {
+            n_enc += 1;
+        } else {
+            n_dec += 1;
+        }
+        if let Some(v) = v {
+            rep.violation(v);
+        }
+    }
+    rep.states = total as u64;
+    rep.transitions = total as u64;
+    rep.evaluations = total as u64;
+    rep.traces = total as u64;
+    rep.distinct = total as u64;
+    rep.extra("encode_tuples", J::i(n_enc));
+    rep.extra("decode_tuples", J::i(n_dec));
+    for i in [1, total / 3, total / 2, total - 1] {
+        rep.sample(case_of(i).dump());
+    }
+}
